@@ -86,7 +86,7 @@ fn weights(prop: &str) -> [u32; 7] {
         "C10" => [12, 35, 20, 3, 20, 0, 10],
         "C07" => [15, 30, 10, 3, 7, 20, 15],
         "C08" => [25, 30, 10, 3, 7, 10, 15],
-        "C05" => [5, 10, 0, 0, 0, 65, 20],
+        "C05" => [10, 35, 5, 0, 5, 28, 17],
         _ => [15, 40, 15, 5, 5, 5, 15],
     }
 }
@@ -844,8 +844,19 @@ fn c17_programs(rng: &mut Rng, n: usize) -> Vec<(String, &'static str)> {
     far.push('.');
     v.push((far, "far right then far left, revisit"));
     v.push(("+[>+<-]+>[>[>]+[<]>-]>[.>]".to_string(), "scan growth"));
+    // many temporaries: the interpreter context is sized from the bytecode's temp count
+    v.push((",>,>,>,[-<+<+<+>>>]<[->+<<+>]<[->>+<]<[->+>+<<]>.>.>.".to_string(), "several temporaries"));
+    v.push((gen::pressure(rng, false), "generated register pressure"));
+    v.push((gen::pressure_products(rng), "generated register pressure"));
+    v.push((gen::cyclic_products(rng), "generated register pressure"));
+    let mut k = 0;
     while v.len() < n {
-        v.push((gen::roaming(rng, 4000), "generated roaming"));
+        k += 1;
+        if k % 3 == 0 {
+            v.push((gen::pressure(rng, false), "generated register pressure"));
+        } else {
+            v.push((gen::roaming(rng, 4000), "generated roaming"));
+        }
     }
     v
 }
@@ -974,7 +985,10 @@ pub fn c05(args: &Args) -> i32 {
     let mut t = Tally::new(prop, &args.replay_dir);
     let start = std::time::Instant::now();
     let ncorpus = corpus.items.len() as u64;
-    let total = args.count + ncorpus;
+    // the first `count` generated cases get the full treatment; ten times as many further cases are
+    // only used when they halt canonically (the window probes of diverging cases dominate the cost)
+    let full = args.count + ncorpus;
+    let total = full + 10 * args.count;
     let mut idx = args.shard;
     let base_window: u64 = args.get_u64("window-ms", 100);
     while idx < total {
@@ -983,9 +997,13 @@ pub fn c05(args: &Args) -> i32 {
             break;
         }
         let mut rng = Rng::derive(args.seed, fnv64(prop.as_bytes()), idx);
+        let halting_only = idx >= full;
         let case = if idx < ncorpus {
             let it = &corpus.items[idx as usize];
-            Case { code: it.0.clone(), bits: if it.1.is_some() { 8 } else { *rng.pick(&[8u32, 8, 16, 32]) }, family: Family::Corpus, fixed_input: it.1.clone() }
+            let bits = if let Some(&b) = corpus.bits.get(&it.0) { b } else if it.1.is_some() { 8 } else { *rng.pick(&[8u32, 8, 16, 32]) };
+            Case { code: it.0.clone(), bits, family: Family::Corpus, fixed_input: it.1.clone() }
+        } else if halting_only {
+            gen_case("C02", &mut rng, &corpus, args.thorough)
         } else {
             gen_case(prop, &mut rng, &corpus, args.thorough)
         };
@@ -1013,10 +1031,7 @@ pub fn c05(args: &Args) -> i32 {
                     continue;
                 }
                 Status::Halted => {
-                    // (c) terminating programs terminate everywhere (sampled: the diff checks do this at scale)
-                    if !rng.chance(1, 3) {
-                        continue;
-                    }
+                    // (c) terminating programs terminate everywhere, with the canonical events
                     t.inc("spec.halted", 1);
                     let mut jobs = Vec::new();
                     for b in [Backend::Inplace, Backend::IrInt, Backend::BcInt, Backend::Jit] {
@@ -1046,6 +1061,9 @@ pub fn c05(args: &Args) -> i32 {
                             }
                         }
                     }
+                }
+                Status::Cycle { .. } if halting_only => {
+                    t.inc("cycle.skipped_in_halting_only_range", 1);
                 }
                 Status::Cycle { at_step, period, events_before, events_per_period } => {
                     t.inc("spec.cycle_proved", 1);
